@@ -19,7 +19,7 @@ CONNECT_FAIL = {"refused", "hang"}
 VERIFY_FAIL = {"close-after-m1", "reset-after-m1", "close-after-m3", "reset-after-m3", "http-4xx", "wrong-id", "bad-sig", "bad-tag", "error-m2:2",
                "error-m4:2", "error-m2:6", "error-m4:3", "error-m2:1", "garbage-m2", "garbage-m4", "hang-m1", "hang-m3", "unknown-controller"}
 AUTH_OUTCOMES = {"error-m2:2", "error-m4:2", "unknown-controller"}      # the accessory reports an authentication error
-SUCCESS = {"ok", "ok-drop:0.5", "ok-drop:20", "ok-drop-resub:fin", "ok-drop-resub:reset"}
+SUCCESS = {"ok", "ok-drop:0.5", "ok-drop:20", "ok-drop-resub:fin", "ok-drop-resub:reset", "ok-resub-garbage"}
 ALL_OUTCOMES = sorted(CONNECT_FAIL | VERIFY_FAIL | SUCCESS)
 
 
@@ -152,6 +152,11 @@ class ReconWorld:
 
         def on_request(c, req):
             o = getattr(c, "attempt_outcome", "ok")
+            if o == "ok-resub-garbage" and req.method == "PUT" and b'"ev"' in req.body and not getattr(c, "resub_dropped", False):
+                # the re-subscription is answered with a multi-status body whose entries lack the status member
+                c.resub_dropped = True
+                c.send_http(207, "Multi-Status", b'{"characteristics":[{"aid":1,"iid":9}]}')
+                return True
             if o.startswith("ok-drop-resub:") and req.method == "PUT" and b'"ev"' in req.body and not getattr(c, "resub_dropped", False):
                 c.resub_dropped = True
                 c.close(o.split(":")[1])
